@@ -321,7 +321,17 @@ def run(ctx):
                 if len(p0) != len(p1):
                     stats["unclaimed"] += 1
                     continue
-            if len(p0) != len(p1) or any(abs(x[0] - y[0]) > TOL or abs(x[1] - y[1]) > TOL for x, y in zip(p0, p1)):
+            def same_sets(u, v):
+                # matching with tolerance (NOT a sorted zip: two crossings with nearly equal first parameter sort differently in
+                # different presentations - false alarm of the thorough tier at PRNG seed 1)
+                v = list(v)
+                for x in u:
+                    hit = next((y for y in v if abs(x[0] - y[0]) <= TOL and abs(x[1] - y[1]) <= TOL), None)
+                    if hit is None:
+                        return False
+                    v.remove(hit)
+                return not v
+            if len(p0) != len(p1) or not same_sets(p0, p1):
                 stats["failures"] += 1
                 if stats["failures"] <= 4:
                     ctx.violations.append({"kind": "property-fails-on-implementation", "sweep": "presentations", "config": cfg, "op": "Curve.intersect",
